@@ -25,6 +25,7 @@ mod c13;
 mod c14;
 mod c17;
 mod c18;
+mod c20;
 
 struct PropDef {
     id: &'static str,
@@ -108,6 +109,11 @@ const PROPS: &[PropDef] = &[PropDef {
     level: "exploration",
     run: c18::run,
     replay: c18::replay,
+}, PropDef {
+    id: "C20",
+    level: "exploration",
+    run: c20::run,
+    replay: c20::replay,
 }];
 
 fn main() {
